@@ -391,12 +391,16 @@ class DataFrameSchemaBackend(PandasSchemaBackend):
                 or col_name in check_obj
                 or col_name in column_info.regex_match_patterns
             ) and col_name not in column_info.absent_column_names:
+                # validate with shallow copies of the schema components:
+                # their name, dtype and coerce attributes are overridden
+                # during validation and the schema itself must not change
+                col = copy.copy(col)
                 if col.name != col_name:
                     col.name = col_name
                 schema_components.append(col)
 
         if schema.index is not None:
-            schema_components.append(schema.index)
+            schema_components.append(copy.copy(schema.index))
         return schema_components
 
     ###########
